@@ -130,6 +130,9 @@ def run(chk, gate, status):
                 continue
             if any(o['op'] in ('solfrom', 'solfromc') and F(o['c']['v']) < F(1, 100) for o in g.ops):
                 continue
+            # trace solutes (nanomoles and below) are below the rounding of the coarse storage units as well
+            if g.stats.get('newc:trace:ok') or g.stats.get('newc:trace'):
+                continue
             progs.append(g.prog()); kinds.append(name)
             taken += 1
             if taken >= (6 if quick else 30):
